@@ -263,17 +263,21 @@ def run_lines(exe, lines, timeout=3600, shards=NPROC, env=None, args=()):
     def one(chunk):
         data = ("\n".join(chunk) + "\n").encode()
         try:
-            p = subprocess.run(["bash", "-c", 'ulimit -s unlimited 2>/dev/null; exec "$0" "$@"', exe] + list(args),
+            # the extracted model may recurse deeply; the implementation runs with the default stack
+            pre = 'ulimit -s unlimited 2>/dev/null; ' if exe.endswith("runner.exe") else 'ulimit -s 8192 2>/dev/null; '
+            p = subprocess.run(["bash", "-c", pre + 'exec "$0" "$@"', exe] + list(args),
                                input=data, stdout=subprocess.PIPE, stderr=subprocess.PIPE,
                                timeout=timeout, env=env or ENV)
             outl = p.stdout.decode("utf-8", "replace").split("\n")
             if outl and outl[-1] == "":
                 outl.pop()
-            if len(outl) != len(chunk):
-                # the process died (abort, stack overflow, kill): mark the first unanswered case
-                outl = outl + ["PROCESS-DIED rc=%s %s" % (p.returncode, p.stderr.decode("utf-8", "replace")[-200:].replace("\n", " "))] \
-                       + ["PROCESS-DIED-SKIPPED"] * (len(chunk) - len(outl) - 1)
-            return outl
+            if len(outl) < len(chunk):
+                # the process died (abort, stack overflow, kill) on the first unanswered case:
+                # mark it and run the rest of the chunk in a fresh process
+                died = "PROCESS-DIED rc=%s %s" % (p.returncode, p.stderr.decode("utf-8", "replace")[-200:].replace("\n", " "))
+                rest = chunk[len(outl) + 1:]
+                outl = outl + [died] + (one(rest) if rest else [])
+            return outl[:len(chunk)]
         except subprocess.TimeoutExpired:
             return ["PROCESS-TIMEOUT"] * len(chunk)
 
